@@ -547,6 +547,9 @@ func drawRestStep(t *rapid.T) restStep {
 	s.Per = rapid.SampledFrom([]uint64{0, 1, 29, 30, 60, 3600, 1 << 32}).Draw(t, "per")
 	s.HasSkew = rapid.Bool().Draw(t, "hasSkew")
 	s.Skew = rapid.SampledFrom([]uint64{0, 1, 2, 3, 10, 10, 11, 100}).Draw(t, "skew")
+	if rapid.IntRange(0, 7).Draw(t, "skewRefused") == 0 {
+		s.Skew = gen.RefusedSkew(t)
+	}
 	_, _, p, skew := s.eff()
 	switch s.Ep {
 	case "totp-gen", "chain-totp":
@@ -588,9 +591,9 @@ func drawRestStep(t *rapid.T) restStep {
 		if s.Ctr > 1<<64-20 {
 			s.Ctr = 1<<64 - 20
 		}
-		sk := int(skew)
-		if sk > 10 {
-			sk = 10
+		sk := 10
+		if skew < 10 {
+			sk = int(skew)
 		}
 		s.Dist = rapid.IntRange(-sk-2, sk+2).Draw(t, "dist")
 		var c uint64
